@@ -148,7 +148,7 @@ def choose_filters(rng, sc, want):
     opts = {}
     args = []
     paired = sc.paired
-    two_files = sc.paired and not getattr(sc, "interleaved_out", False)
+    two_files = redirects_two_files(sc)
 
     def lenval():
         v = rng.choice(lens)
@@ -187,7 +187,7 @@ def choose_filters(rng, sc, want):
         opts["max_ee"] = v
         args += ["--max-ee", v]
     if rng.random() < 0.35 * scale:
-        v = rng.choice(["0.1", "0.5", "0.9", "0.01"])
+        v = rng.choice(["0.1", "0.5", "0.9", "0.01"])  # 0 and 1 are rejected by the tool
         opts["max_aer"] = v
         args += ["--max-aer", v]
     if rng.random() < 0.3 * scale:
@@ -349,21 +349,30 @@ def demux_fate(sc, r1, r2):
     return f"demux:{n1}/{n2}"
 
 
+def redirects_two_files(sc):
+    """Whether the redirect options get two files; by default as the main output, but the two can be mixed."""
+    if not sc.paired:
+        return False
+    r = getattr(sc, "redirect_two", None)
+    return (not getattr(sc, "interleaved_out", False)) if r is None else r
+
+
 def output_layout(sc):
     """Destination name -> (file1, file2|None) for every file the main run is expected to create."""
     files = {}
     opts = sc.fopts
     p = sc.paired and not getattr(sc, "interleaved_out", False)
+    pr = redirects_two_files(sc)
     if opts.get("too_short_out"):
-        files["too_short"] = ("ts1.fq", "ts2.fq" if p else None)
+        files["too_short"] = ("ts1.fq", "ts2.fq" if pr else None)
     if opts.get("too_long_out"):
-        files["too_long"] = ("tl1.fq", "tl2.fq" if p else None)
+        files["too_long"] = ("tl1.fq", "tl2.fq" if pr else None)
     if sc.demux == "normal":
         names = list(dict.fromkeys(a["name"] for a in sc.ads1))
         for n in names:
             files["demux:" + n] = (f"dm.{n}.1.fq", f"dm.{n}.2.fq" if p else None)
         if opts.get("untrimmed_output"):
-            files["untrimmed_file"] = ("ut1.fq", "ut2.fq" if p else None)
+            files["untrimmed_file"] = ("ut1.fq", "ut2.fq" if pr else None)
         elif not opts.get("discard_untrimmed"):
             files["demux:unknown"] = ("dm.unknown.1.fq", "dm.unknown.2.fq" if p else None)
     elif sc.demux == "combinatorial":
@@ -377,7 +386,7 @@ def output_layout(sc):
     else:
         files["out"] = ("o1.fq", "o2.fq" if p else None)
         if opts.get("untrimmed_output"):
-            files["discard_untrimmed"] = ("ut1.fq", "ut2.fq" if p else None)
+            files["discard_untrimmed"] = ("ut1.fq", "ut2.fq" if pr else None)
     return files
 
 
@@ -411,6 +420,10 @@ def observe(ctx, rng, d, want):
         ctx.count("baseline_record_count_differs")
         return None
     sc.interleaved_out = bool(sc.paired and not want.get("demux") and rng.random() < want.get("interleaved_p", 0.0))
+    sc.redirect_two = None
+    if sc.paired and rng.random() < want.get("mixed_layout_p", 0.0):
+        # main output and redirect files need not have the same layout
+        sc.redirect_two = bool(sc.interleaved_out)
     choose_filters(rng, sc, want)
     predict(sc)
     sc.report = rng.choice([None, None, "full", "minimal"])
